@@ -45,12 +45,14 @@ package render
 //@ ensures tree: @tree
 //@ method InnerString
 //@ assigns *
-//@ ensures outputElsewhere: forall(x, "Val", !newbuf(x) ==> wtotal(x) == old(wtotal(x)))
+//@ ensures outputElsewhere: forall(x, "Val", !newbuf(x) && !is(x, *render.trimWriter) ==> wtotal(x) == old(wtotal(x)))
+//@ ensures buffersUntouched: sameold("F$render.trimWriter$buf") && sameold("F$render.trimWriter$trim")
 //@ ensures tree: @tree
 //@ method RenderFile
 //@ requires tag: intag(this)
 //@ assigns *
-//@ ensures noOutput: forall(x, "Val", !newbuf(x) ==> wtotal(x) == old(wtotal(x)))
+//@ ensures noOutput: forall(x, "Val", !newbuf(x) && !is(x, *render.trimWriter) ==> wtotal(x) == old(wtotal(x)))
+//@ ensures buffersUntouched: sameold("F$render.trimWriter$buf") && sameold("F$render.trimWriter$trim")
 //@ ensures tree: @tree
 //@ ensures one: result1 != nil ==> result0 == ""
 //@ method Evaluate
@@ -377,8 +379,9 @@ package render
 //@ ensures nodeError: nerr != nil ==> result == nerr
 //@ ensures flushError: ferr != nil ==> result != nil
 //@ ensures ok: nerr == nil && ferr == nil ==> result == nil
-//@ ensures onlyw: forall(x, "Val", x != w && !newbuf(x) ==> wtotal(x) == old(wtotal(x)))
+//@ ensures onlyw: forall(x, "Val", x != w && !newbuf(x) && !is(x, *render.trimWriter) ==> wtotal(x) == old(wtotal(x)))
 //@ ensures tree: @tree
+//@ ensures buffersUntouched: sameold("F$render.trimWriter$buf") && sameold("F$render.trimWriter$trim")
 
 // ---- include: RenderFile (C14) ---------------------------------------------------------
 // Disk wins over the cache; the included source is compiled with the INCLUDING tag's
